@@ -521,19 +521,53 @@ func orphanRaw(dir string) (string, error) {
 	}); err != nil {
 		return "", err
 	}
+	// with sharded tables a branch is read and pruned in ITS shard (the first shard at or after
+	// its version: getShard); copies written again into later shards are looked at by nobody and
+	// are not part of the model: only the row in the home shard is listed
+	var ids []int64
 	for _, tb := range tables {
+		var id int64
+		if _, err := fmt.Sscanf(tb, "tree_%d", &id); err == nil {
+			ids = append(ids, id)
+		}
+	}
+	home := func(v int64) int64 {
+		h := int64(-1)
+		for _, id := range ids {
+			if id >= v && (h == -1 || id < h) {
+				h = id
+			}
+		}
+		return h
+	}
+	for _, tb := range tables {
+		var id int64
+		if _, err := fmt.Sscanf(tb, "tree_%d", &id); err != nil {
+			continue
+		}
 		if err := query("SELECT version, sequence FROM "+tb, func(q *sqlite3.Stmt) error {
 			var v, sq int64
 			if err := q.Scan(&v, &sq); err != nil {
 				return err
 			}
-			bs = append(bs, fmt.Sprintf("%d.%d", v, sq))
+			if len(ids) == 1 || home(v) == id {
+				bs = append(bs, fmt.Sprintf("%d.%d", v, sq))
+			}
 			return nil
 		}); err != nil {
 			return "", err
 		}
 	}
 	sort.Strings(bs)
+	// a branch that is still in memory at a later checkpoint is written again under the same key
+	// (into the new shard when the tables are sharded): one key, listed once
+	uniq := bs[:0]
+	for i, b := range bs {
+		if i == 0 || b != bs[i-1] {
+			uniq = append(uniq, b)
+		}
+	}
+	bs = uniq
 	if err := query("SELECT version, checkpoint FROM root ORDER BY version", func(q *sqlite3.Stmt) error {
 		var v int64
 		var cp bool
